@@ -30,6 +30,8 @@ FAMILY = {
     # four-byte input (ten spans), two hits
     "t4": dict(L0=4, L1=2, N0=2, N1=1, Ks="<- K_m1_2_4", Types='{"", "x"}',
                Kinds='{"slice", "target", "leaf", "self"}', Types1='{"x"}', Kinds1='{"slice", "leaf"}'),
+    # an input with a byte above 127 ("a\xC8c"); decodings that only drop it or change its Latin-1 case
+    "h3": dict(L0=3, L1=1, N0=3, N1=0, Ks="{1, 2}", Types='{"x"}', Kinds='{"slice", "strip", "hiflip", "leaf"}', Types1='{"x"}', Kinds1='{"leaf"}', HighAt=2),
     # small family in which the defect of the pinned commit shows (used for non-vacuity runs only)
     "nv": dict(L0=3, L1=1, N0=3, N1=0, Ks="{2}", Types='{"x"}', Kinds='{"slice", "leaf"}', Types1='{"x"}', Kinds1='{"leaf"}'),
     # two levels that both decode again
@@ -45,9 +47,9 @@ def family_cfg(name: str, variant: str = "fixed", invariants=None, liveness=True
     c = FAMILY[name]
     lines = ["CONSTANTS"]
     for k, v in c.items():
-        if k != "MinStart":
+        if k not in ("MinStart", "HighAt"):
             lines.append(f" {k} {v}" if str(v).startswith("<-") else f" {k} = {v}")
-    lines += [f" MinStart = {c.get('MinStart', 0)}", f" Slack = {slack}", f' Variant = "{variant}"', " WK <- GenK", " WTexts <- GenTexts", " WHits <- GenHits", " NWorlds <- GenN"]
+    lines += [f" MinStart = {c.get('MinStart', 0)}", f" HighAt = {c.get('HighAt', 0)}", f" Slack = {slack}", f' Variant = "{variant}"', " WK <- GenK", " WTexts <- GenTexts", " WHits <- GenHits", " NWorlds <- GenN"]
     if gen:
         lines += ["INIT Init", "NEXT Next"]
     else:
